@@ -190,7 +190,7 @@ def same_records(a, b, what):
     return out
 
 
-def eval_setup(desc, d, kinds):
+def eval_setup(desc, d, kinds, indep=False):
     """runs the set-up and its images under the transformations in `kinds` ((1, 0) mirror, (2, seconds) shift);
     returns (list of Coq cases for Corr.SetupRun [tag-prefixed by the caller], problems, non-trivial?)"""
     phys = physical(desc)
@@ -207,6 +207,24 @@ def eval_setup(desc, d, kinds):
         # and the plain model on the description of the transformed files
         cases.append([2, kind, dd] + enc_setup(desc, phys, desc["rev"]) + enc_records(recs))
         cases.append([1] + enc_setup(desc, phys2, rev2) + enc_records(recs))
+    # independence: the same set-up without the rows of the earliest release instant in the window (the first release
+    # then comes later, possibly between two forcing frames, after steps with no particles at all): every other
+    # particle must do exactly what it does in the full run; the model is evaluated on the reduced table as well
+    if indep and not desc.get("cont", 0):
+        S, stop, files, rel = phys
+        sg = -1 if desc["rev"] else 1
+        stepof = lambda x: sg * (x - S) / DT  # noqa: E731
+        inwin = [r for r in rel if 0 <= stepof(r[0]) < desc["N"]]
+        if inwin:
+            t0 = inwin[0][0]
+            rest = [r for r in rel if r[0] != t0]
+            k = sum(r[1] for r in rel if r[0] == t0)
+            if any(0 <= stepof(r[0]) < desc["N"] and r[1] > 0 for r in rest):
+                phys_sub = (S, stop, files, rest)
+                sub = run(d, "sub", desc, phys_sub, desc["rev"])
+                cases.append([1] + enc_setup(desc, phys_sub, desc["rev"]) + enc_records(sub))
+                want = [{"step": r["step"], "rows": [[q - k, x, a, tt] for q, x, a, tt in r["rows"] if q >= k]} for r in base]
+                problems += same_records(want, sub, f"run without the {k} particle(s) released first (independence)")
     moved = len({tuple(x for _, x, _, _ in r["rows"]) for r in base if r["rows"]}) > 1
     times = len({r[0] for r in desc["rows"] if r[1] > 0}) > 1
     irregular = len(set(b - a for a, b in zip(desc["fsteps"][:-1], desc["fsteps"][1:]))) > 1 or len(desc["fsteps"]) == 2
